@@ -222,10 +222,30 @@ class C10:
             "XONSH_SHOW_TRACEBACK": False, "XONSH_SUBPROC_RAISE_ERROR": False, "UPDATE_OS_ENVIRON": False, "THREAD_SUBPROCS": False,
             "XONSH_DATA_DIR": os.environ["XONSH_DATA_DIR"], "XONSH_CACHE_DIR": os.environ["XONSH_CACHE_DIR"], "PYTHONPATH": os.environ.get("PYTHONPATH", ""),
         })
+        env["LS_COLORS"] = "di=01;34:ln=01;36:ex=01;32"
         self.XSH.env = env
         self.XSH.interface.env = env
         self.XSH.commands_cache.env = env
         return env
+
+    def lscolors_check(self, rec, case, trace, got_str, env, how):
+        """round trip of the launch-time string: converting what the child receives back must give the live mapping
+        (colours and `target` flags) - whatever in-place edits preceded the launch"""
+        from xonsh.environ import LsColors
+
+        rec.count("lscolors_images_checked")
+        live = env["LS_COLORS"]
+        want = {k: ("target" if live.is_target(k) else tuple(live[k])) for k in live}
+        if got_str is None:
+            rec.violation(f"IMAGE/{how}/LS_COLORS-missing", dict(case, steps=trace), None)
+            return False
+        back = LsColors.fromstring(got_str)
+        have = {k: ("target" if back.is_target(k) else tuple(back[k])) for k in back}
+        if want != have:
+            ks = sorted(k for k in set(want) | set(have) if want.get(k) != have.get(k))
+            rec.violation(f"IMAGE/{how}/LS_COLORS-string-does-not-convert-back-to-the-live-value", dict(case, steps=trace), {"keys": ks[:4], "live": {k: want.get(k) for k in ks[:4]}, "from_child_string": {k: have.get(k) for k in ks[:4]}, "last_ops": trace[-4:]})
+            return False
+        return True
 
     def image_check(self, rec, case, trace, got, model, how, overlay=None):
         """got: mapping handed to / printed by the child."""
@@ -267,8 +287,16 @@ class C10:
         mutated_then_launched = False
         pending_mut = False
         real_budget = case.get("real", 0)
+        ls_focus = rng.random() < 0.3  # a third of the histories edit $LS_COLORS in place again and again between launches
         for step in range(case["steps"]):
             r = rng.random()
+            if ls_focus and rng.random() < 0.35:
+                k = rng.choice(["ln", "or"])
+                v = rng.choice(["target", ("RESET",), ("RESET",), ("RED",)])
+                env["LS_COLORS"][k] = v
+                rec.count("lscolors_in_place_edits")
+                trace.append(["lscolors-set", k, v])
+                continue
             if r < 0.14:
                 k = rng.choice(["VSTR", "VSTR2", "VNUMSTR"])
                 v = rng.choice(["x", "y z", "", "\u00fc", "a=b", "1"])
@@ -318,9 +346,15 @@ class C10:
                     pending_mut = True
                     rec.count("held_reference_mutations")
                     trace.append(["append-held-reference", k, x])
-            elif r < 0.70:
+            elif r < 0.66:
                 env.detype()
                 trace.append(["detype-read"])
+            elif r < 0.70:
+                k = rng.choice(["ln", "di", "or", "ex"])
+                v = rng.choice(["target", ("RESET",), ("RESET",), ("BOLD_BLUE",), ("RED",)])
+                env["LS_COLORS"][k] = v
+                rec.count("lscolors_in_place_edits")
+                trace.append(["lscolors-set", k, v])
             elif r < 0.74:
                 v = rng.random() < 0.5
                 try:
@@ -331,7 +365,7 @@ class C10:
                 trace.append(["UPDATE_OS_ENVIRON", v])
             else:
                 # ---- a launch
-                how = rng.choice(["prep", "prep", "prep-swap", "prep-spec-env", "real", "real-prefix"])
+                how = rng.choice(["prep", "prep", "prep-swap", "prep-spec-env", "prep-nested-overlays", "real", "real-prefix"])
                 if how.startswith("real") and real_budget <= 0:
                     how = "prep"
                 if pending_mut:
@@ -353,6 +387,24 @@ class C10:
                             kw = {}
                             spec.prep_env_subproc(kw)
                             got = kw["env"]
+                    elif how == "prep-nested-overlays":
+                        # two overlay frames on one thread (an alias with `env` calling another one): the inner frame wins,
+                        # a mask in the inner frame hides the outer frame's and the session's value
+                        from xonsh.environ import DELETE_VAR
+
+                        outer = {"VSTR": "outer", "VSTR2": "o2", "VNUMSTR": "5"}
+                        inner = {"VSTR": "inner", "VSTR2": DELETE_VAR}
+                        if rng.random() < 0.3:
+                            inner["VNUMSTR"] = DELETE_VAR
+                        overlay = {"VSTR": "inner", "VNUMSTR": "5"}
+                        with env.swap(overlay=dict(outer)):
+                            with env.swap(overlay=dict(inner)):
+                                spec = SubprocSpec.build(["env"])
+                                kw = {}
+                                spec.prep_env_subproc(kw)
+                                got = kw["env"]
+                        masked = [k for k, v in inner.items() if v is DELETE_VAR]
+                        rec.count("nested_overlay_launches")
                     elif how == "prep-spec-env":
                         overlay = {"VSTR": "fromspec", "VNUMSTR": "8"}
                         spec = SubprocSpec.build(["env"], env=dict(overlay))
@@ -373,7 +425,13 @@ class C10:
                     rec.violation(f"LAUNCH/{how}/raises-{type(e).__name__}", dict(case, steps=trace), {"err": str(e)[:150]})
                     return
                 trace.append(["launch", how])
-                if not self.image_check(rec, case, list(trace), got, model, how.split("-")[0] if how.startswith("real") else "prep_env_subproc", overlay):
+                m2 = model
+                if how == "prep-nested-overlays":
+                    m2 = {k: v for k, v in model.items() if k not in masked}
+                    overlay = {k: v for k, v in overlay.items() if k not in masked}
+                if not self.image_check(rec, case, list(trace), got, m2, how.split("-")[0] if how.startswith("real") else "prep_env_subproc", overlay):
+                    return
+                if not self.lscolors_check(rec, case, list(trace), got.get("LS_COLORS"), env, how.split("-")[0] if how.startswith("real") else "prep_env_subproc"):
                     return
                 # after a scoped launch nothing of the overlay may remain
                 if overlay:
